@@ -26,14 +26,19 @@ InitState ==
    pending |-> {},      \* requests being handled
    acked |-> <<>>,      \* <<s, n>> in the order the success responses were sent
    refused |-> {},      \* answered with a CIM error
-   log |-> [c \in 1..MaxCb |-> <<>>]]
+   log |-> [c \in 1..MaxCb |-> <<>>],
+   seen |-> {},         \* indications whose request was sent
+   late |-> {},         \* callbacks registered while the listener was running
+   exempt |-> [c \in 1..MaxCb |-> {}]]  \* ... and what was sent before that
 
 Item(e) == <<e.s, e.n>>
 Delivered(s, c) == Rng(s.log[c])
+Pos(q, x) == CHOOSE i \in DOMAIN q : q[i] = x
 
 ExactlyOnceAtStop(s) ==
      F("ExactlyOnce.AcknowledgedDeliveredToEveryCallback",
-       \A x \in Rng(s.acked) : \A c \in 1..s.ncb : x \in Delivered(s, c))
+       \A x \in Rng(s.acked) : \A c \in 1..s.ncb :
+          x \in Delivered(s, c) \/ x \in s.exempt[c])
 \cup F("ExactlyOnce.RefusedNeverDelivered",
        \A x \in s.refused : \A c \in 1..s.ncb : x \notin Delivered(s, c))
 
@@ -49,8 +54,16 @@ DeliverFails(s, e) ==
      \* callbacks run in registration order: callback c gets exactly the
      \* next item callback c-1 already got
 \cup F("CallbackOrder.RegistrationOrder",
-       c = 1 \/ (Len(s.log[c]) < Len(s.log[c - 1]) /\
-                 s.log[c - 1][Len(s.log[c]) + 1] = it))
+       \/ c = 1
+       \/ c \notin s.late /\ Len(s.log[c]) < Len(s.log[c - 1]) /\
+                            s.log[c - 1][Len(s.log[c]) + 1] = it
+          \* a callback added while the listener runs joins in at some
+          \* indication and misses none from then on
+       \/ c \in s.late /\ it \in Rng(s.log[c - 1]) /\
+             (s.log[c] = <<>> \/
+              (s.log[c][Len(s.log[c])] \in Rng(s.log[c - 1]) /\
+               Pos(s.log[c - 1], it) =
+                  Pos(s.log[c - 1], s.log[c][Len(s.log[c])]) + 1)))
      \* indications of one sender arrive in the order they were sent
 \cup F("SenderFifo",
        \A i \in DOMAIN s.log[c] :
@@ -69,6 +82,8 @@ Fails(s, e) ==
     [] e.ev = "end" ->
            F("End.ExecutionCompleted", e.outcome = "done")
       \cup (IF s.stopped THEN ExactlyOnceAtStop(s) ELSE {})
+    [] e.ev = "add_callback" ->
+           F("AddCallback.DoesNotRaise", e.exc = "")
     [] e.ev = "resp" ->
            F("Response.AfterRequest", e.kind = "refused" \/ Item(e) \in s.pending)
     [] OTHER -> {}
@@ -76,7 +91,13 @@ Fails(s, e) ==
 Apply(s, e) ==
   CASE e.ev = "started" -> [s EXCEPT !.ncb = e.ncb, !.running = e.ok,
                                       !.stopped = FALSE]
-    [] e.ev = "req" -> [s EXCEPT !.pending = @ \cup {Item(e)}]
+    [] e.ev = "req" -> [s EXCEPT !.pending = @ \cup {Item(e)},
+                                  !.seen = @ \cup {Item(e)}]
+    [] e.ev = "add_callback" ->
+         IF e.c \in 1..MaxCb
+         THEN [s EXCEPT !.ncb = e.c, !.late = @ \cup {e.c},
+                        !.exempt[e.c] = s.seen]
+         ELSE s
     [] e.ev = "resp" ->
          IF e.kind = "ok"
          THEN [s EXCEPT !.pending = @ \ {Item(e)}, !.acked = Append(@, Item(e))]
